@@ -1,4 +1,5 @@
 import LitexModel.Fhdl.Lower
+import LitexModel.Fhdl.Static
 import LitexProofs.Verilog.Eval
 /-
   `lowerSliceCat_correct` / `lowerSliceReplicate_correct`: the index arithmetic of `_lower_slice_cat` and
@@ -138,5 +139,50 @@ theorem lowerRep_correct (ρ : Env) : ∀ (e : Expr) (st len : Nat), 0 < len →
   | .mux _ _ _, _, _, _, _ => rfl
   | .slice _ _ _, _, _, _, _ => rfl
   | .cat _, _, _, _, _ => rfl
+
+/-! ### dropping a slice that covers its node exactly -/
+
+theorem evalCat_range (ρ : Env) : ∀ (l : List Expr), 0 ≤ evalCat ρ l ∧ evalCat ρ l < p2 (catBits l)
+  | [] => by simp [evalCat, catBits, p2_zero]
+  | e :: es => by
+    have ih := evalCat_range ρ es
+    have h0 := tn_nonneg (bitsSign e).1 (evalF ρ e)
+    have h1 := tn_lt (bitsSign e).1 (evalF ρ e)
+    have hp := p2_pos (bitsSign e).1
+    simp only [evalCat, catBits, p2_add]
+    constructor
+    · nlinarith [ih.1]
+    · nlinarith [ih.1, ih.2]
+
+/-- A dropped slice was the identity: an unsigned signal (with a value in its declared range), a `Cat` and a
+    `Replicate` evaluate to a non-negative number of their own width. -/
+theorem lowerDrop_correct (ρ : Env) (e : Expr) (st len : Nat) (h : dropsSlice e st len = true)
+    (hρ : envOk ρ e = true) : sliceVal ρ e st len = evalF ρ e := by
+  simp only [dropsSlice, Bool.and_eq_true, decide_eq_true_eq] at h
+  obtain ⟨⟨hst, hlen⟩, hk⟩ := h
+  subst hst
+  subst hlen
+  simp only [sliceVal, p2_zero, Int.ediv_one]
+  cases e with
+  | sig i w s =>
+    simp only [Bool.not_eq_true'] at hk
+    subst hk
+    simp only [envOk] at hρ
+    simp only [bitsSign, evalF]
+    exact tn_of_inRange_unsigned hρ
+  | cat l =>
+    simp only [bitsSign, evalF]
+    have := evalCat_range ρ l
+    exact tn_of_range this.1 this.2
+  | rep a n =>
+    simp only [bitsSign, evalF]
+    have := replV_range (tn_nonneg (bitsSign a).1 (evalF ρ a)) (tn_lt (bitsSign a).1 (evalF ρ a)) n
+    rw [Nat.mul_comm] at this
+    exact tn_of_range this.1 this.2
+  | const v w s => simp at hk
+  | op1 o a => simp at hk
+  | op2 o a b => simp at hk
+  | mux c a b => simp at hk
+  | slice a lo hi => simp at hk
 
 end Litex.C01
